@@ -23,6 +23,9 @@ TRUSTED_BASE = [
 def impl_env(extra=None):
     env = dict(os.environ)
     env['PYTHONPATH'] = REPO
+    if os.environ.get('BVERIF_COV_DIR'):      # diagnosis: line coverage of bisturi under the drivers (harness/covsite)
+        env['PYTHONPATH'] = os.path.join(VERIF, 'harness', 'covsite') + os.pathsep + REPO
+        env['BVERIF_COV_DIR'] = os.environ['BVERIF_COV_DIR']
     env['PYTHONHASHSEED'] = '0'
     env['PYTHONDONTWRITEBYTECODE'] = '1'
     env['BISTURI_VERIF'] = '1'
